@@ -96,7 +96,7 @@ def judge(ctx, g, case):
                     ap.add_argument(o, **kw)
                 else:
                     ap.get_cmd_parser(owner).add_argument(o, **kw)
-    except BaseException as err:
+    except (Exception, SystemExit) as err:
         ctx.violation("acyclic-declaration-rejected",
                       {"type": type(err).__name__, "msg": str(err)[:150], "diamond": has_diamond(g, anc)}, case)
         return
